@@ -10,6 +10,10 @@ import (
 // First match wins.  The Lean models produce the same class names directly.
 var errClasses = []struct{ needle, class string }{
 	// Modules.add: a module name with '@' (first: the quoted name may contain any other needle)
+	// The class is carried by the stable head of the message ("invalid module name %q: …"), not by
+	// the explanation after the colon, so that a re-worded explanation is not an alarm.
+	{"invalid module name ", "bad-module-name"},
+	{"invalid submodule name ", "bad-module-name"},
 	{"'@' separates name and revision", "bad-module-name"},
 	// wraps the inner resolution errors ("deviation has unresolvable type, [pos: unknown type …]")
 	{"unresolvable type", "deviate-bad-type"},
